@@ -24,4 +24,4 @@ run_one() {
   rm -rf "$tmp"
 }
 export -f run_one
-ls benign/*.patch | grep "${1:-.}" | xargs -P 6 -I{} bash -c 'run_one {}' | sort
+ls benign/*.patch | grep -E "${1:-.}" | xargs -P 6 -I{} bash -c 'run_one {}' | sort
